@@ -166,35 +166,35 @@ package geometry
 //@ spec func rectSeg(r Rect, i int) Segment { mkSegment(rectPt(r,i), rectPt(r,i+1)) }
 
 //@ func Segment.Rect
-//@   props C11 C04 C01 C02 C03 C08
+//@   props C11 C04 C01 C02 C03 C08 C12
 //@   arith order
 //@   ensures result == segRect(seg)
 
 //@ func Rect.IntersectsRect
-//@   props C02 C04 C01 C09 C03 C08
+//@   props C02 C04 C01 C09 C03 C08 C12
 //@   arith order
 //@   ensures result == rectsMeet(rect, other)
 
 //@ func baseSeries.NumPoints
-//@   props C18 C04 C02 C03 C08
+//@   props C18 C04 C02 C03 C08 C01 C12
 //@   arith order
 //@   requires series != nil
 //@   ensures result == len(series.points)
 
 //@ func baseSeries.PointAt
-//@   props C18 C04 C02 C03 C08
+//@   props C18 C04 C02 C03 C08 C01 C12
 //@   arith order
 //@   requires series != nil && 0 <= index && index < len(series.points)
 //@   ensures result == series.points[index]
 
 //@ func baseSeries.NumSegments
-//@   props C18 C04 C01 C02 C03 C08
+//@   props C18 C04 C01 C02 C03 C08 C12
 //@   arith order
 //@   requires series != nil
 //@   ensures result == bsNseg(series)
 
 //@ func baseSeries.SegmentAt
-//@   props C18 C04 C01 C02 C03 C08
+//@   props C18 C04 C01 C02 C03 C08 C12
 //@   arith order
 //@   requires series != nil && 0 <= index && index < len(series.points)
 //@   ensures result == bsSeg(series, index)
@@ -204,7 +204,7 @@ package geometry
 //@   arith order
 //@   ensures result == 5
 //@ func Rect.NumSegments
-//@   props C18 C04 C02 C03 C08
+//@   props C18 C04 C02 C03 C08 C01 C12
 //@   arith order
 //@   ensures result == 4
 //@ func Rect.PointAt
@@ -214,7 +214,7 @@ package geometry
 //@   requires 0 <= index && index <= 4
 //@   ensures result == rectPt(rect, index)
 //@ func Rect.SegmentAt
-//@   props C18 C04 C02 C03 C08
+//@   props C18 C04 C02 C03 C08 C01 C12
 //@   dead cover.ret4
 //@   arith order
 //@   requires 0 <= index && index < 4
@@ -223,7 +223,7 @@ package geometry
 // Search protocol (C04): exactly the segments whose bounding box meets the query rectangle, once each,
 // with their position index, nothing after the callback returned false.
 //@ func Rect.Search
-//@   props C04 C01 C05 C02 C03 C08
+//@   props C04 C01 C05 C02 C03 C08 C12
 //@   arith order
 //@   iter iter(idx) dom 0 <= idx && idx < 4 ; match rectsMeet(segRect(rectSeg(rect, idx)), target) ; args rectSeg(rect, idx), idx
 //@   loop 0 invariant 0 <= i && i <= 4 && idx == i && rectNumSegments == 4 && !stopped
@@ -241,7 +241,7 @@ package geometry
 // the same invariant behind an opaque name: passed across a state merge by congruence instead of being re-expanded over merged heaps
 //@ spec func idxOK(s *baseSeries) bool opaque { IndexInv(s) }
 //@ func baseSeries.Search
-//@   props C04 C01 C08 C05 C02 C03
+//@   props C04 C01 C08 C05 C02 C03 C12
 //@   arith order
 //@   requires series != nil && IndexInv(series)
 //@   iter iter(idx) dom 0 <= idx && idx < bsNseg(series) ; match rectsMeet(segRect(bsSeg(series, idx)), rect) ; args bsSeg(series, idx), idx
@@ -281,15 +281,15 @@ package geometry
 //@   requires SeriesInv(self) && 0 <= index && index < sNpts(self)
 //@   ensures result == sPt(self, index)
 //@ func Series.NumSegments
-//@   props C18 C01 C04 C02 C03 C08
+//@   props C18 C01 C04 C02 C03 C08 C12
 //@   requires SeriesInv(self)
 //@   ensures result == sNseg(self)
 //@ func Series.SegmentAt
-//@   props C18 C01 C04 C02 C03 C08
+//@   props C18 C01 C04 C02 C03 C08 C12
 //@   requires SeriesInv(self) && 0 <= index && index < sNseg(self)
 //@   ensures result == sSeg(self, index)
 //@ func Series.Search
-//@   props C04 C01 C05 C02 C03 C08
+//@   props C04 C01 C05 C02 C03 C08 C12
 //@   requires SeriesInv(self)
 //@   iter iter(idx) dom 0 <= idx && idx < sNseg(self) ; match rectsMeet(segRect(sSeg(self, idx)), rect) ; args sSeg(self, idx), idx
 
@@ -566,7 +566,7 @@ package geometry
 //@ spec func degenerate(ps []Point, closed bool) bool { (closed && len(ps) < 3) || len(ps) < 2 }
 
 //@ func baseSeries.buildIndex
-//@   props C04 C02 C03 C08
+//@   props C04 C02 C03 C08 C01 C12
 //@   trusted the builders of the compressed indexes are outside the deductive subset; validated by the bounded index suite (govrac index)
 //@   requires series != nil
 //@   modifies baseSeries.index
@@ -579,7 +579,7 @@ package geometry
 //@   ensures DefaultIndexOptions != nil
 
 //@ func makeSeries
-//@   props C18 C11 C04 C01 C02 C03 C08
+//@   props C18 C11 C04 C01 C02 C03 C08 C12
 //@   entry use globalsInit()
 //@   requires ExactSums: forall k int :: 0 <= k && k < len(points) ==> abs(trapCode(points,k) + trapTerm(points,k)) < pow53()
 //@   ensures Closed: result.closed == closed
@@ -616,7 +616,7 @@ package geometry
 //@   ret have Cover: forall j int :: 0 <= j && j < sNseg(result) ==> (rectHas(sRect(result), sSeg(result,j).A) && rectHas(sRect(result), sSeg(result,j).B))
 
 //@ func NewLine
-//@   props C11 C01 C04 C02 C03 C08
+//@   props C11 C01 C04 C02 C03 C08 C12
 //@   entry use globalsInit()
 //@   requires ExactSums: forall k int :: 0 <= k && k < len(points) ==> abs(trapCode(points,k) + trapTerm(points,k)) < pow53()
 //@   requires ptsInDom(points)
@@ -786,12 +786,12 @@ package geometry
 //@ spec func numBytesOf(n int) int { ite(n <= 255, 1, ite(n <= 65535, 2, 4)) }
 
 //@ func numBytes
-//@   props C04 C08 C01 C02 C03
+//@   props C04 C08 C01 C02 C03 C12
 //@   arith order
 //@   ensures result == numBytesOf(n)
 
 //@ func appendNum
-//@   props C04 C08 C01 C02 C03
+//@   props C04 C08 C01 C02 C03 C12
 //@   arith order
 //@   requires Fits: (ibytes == 1 ==> num <= 255) && (ibytes == 2 ==> num <= 65535)
 //@   ensures Len: len(result) == len(dst) + widthOf(ibytes)
@@ -800,7 +800,7 @@ package geometry
 //@   ensures Bytes: forall k int :: len(dst) <= k && k < len(result) ==> 0 <= result[k] && result[k] <= 255
 
 //@ func readNum
-//@   props C04 C08 C01 C05 C02 C03
+//@   props C04 C08 C01 C05 C02 C03 C12
 //@   arith order
 //@   requires len(data) >= widthOf(ibytes)
 //@   ensures result == numAt(data, 0, ibytes)
@@ -819,13 +819,13 @@ package geometry
 //@ spec func rectOK(a Rect) bool { a.Min.X <= a.Max.X && a.Min.Y <= a.Max.Y }
 
 //@ func quadBounds
-//@   props C04 C02 C03 C08
+//@   props C04 C02 C03 C08 C01 C12
 //@   arith order
 //@   ensures qbounds == quadOf(bounds, q)
 
 // an item that chooseQuad sends to quadrant q lies inside that quadrant's bounds (whatever the midpoint evaluates to)
 //@ func qNode.chooseQuad
-//@   props C04 C02 C03 C08
+//@   props C04 C02 C03 C08 C01 C12
 //@   arith order
 //@   requires rectOK(rect) && rectInside(rect, bounds)
 //@   ensures Range: result == -1 || (0 <= result && result <= 3)
@@ -833,7 +833,7 @@ package geometry
 
 // a rectangle inside b cannot meet what b does not meet (soundness of pruning a subtree by its bounds)
 //@ lemma insideNoMeet(a Rect, b Rect, r Rect)
-//@   props C04 C02 C03 C08
+//@   props C04 C02 C03 C08 C01 C12
 //@   requires rectInside(a, b) && !rectsMeet(b, r)
 //@   ensures !rectsMeet(a, r)
 
@@ -876,12 +876,12 @@ package geometry
 //@     QWF(d, 5, bounds, ps, cl) && (forall i int :: (0 <= i && i < nsegOf(ps,cl)) == qIn(d, 5, i)) }
 
 //@ lemma qwfNode(d []byte, a int, b Rect, ps []Point, cl bool)
-//@   props C04 C02 C03 C08
+//@   props C04 C02 C03 C08 C01 C12
 //@   reveal QWF
 //@   requires QWF(d,a,b,ps,cl)
 //@   ensures qNodeOK(d,a,ps,cl) && qDisjoint(d,a)
 //@ lemma qwfKid(d []byte, a int, b Rect, ps []Point, cl bool, q int)
-//@   props C04 C02 C03 C08
+//@   props C04 C02 C03 C08 C01 C12
 //@   reveal QWF
 //@   requires QWF(d,a,b,ps,cl) && d[qS(d,a)] == 1 && 0 <= q && q <= 3
 //@   ensures qKidOK(d,a,b,ps,cl,q) && qKidInside(d,a,b,ps,q)
@@ -891,51 +891,51 @@ package geometry
 //@     q > 0 && (kidsUpTo(d,a,b,r,q-1,i) || (qInKid(d,a,q-1,i) && rectsMeet(quadOf(b,q-1), r))) }
 
 //@ lemma inListWitness(d []byte, a int, k int, k0 int)
-//@   props C04 C02 C03 C08
+//@   props C04 C02 C03 C08 C01 C12
 //@   requires 0 <= k0 && k0 < k
 //@   ensures inList(d, a, k, qItem(d,a,k0))
 //@   induction k
 //@ lemma notInPrefix(d []byte, a int, k int, k2 int)
-//@   props C04 C02 C03 C08
+//@   props C04 C02 C03 C08 C01 C12
 //@   requires qNoDup(d,a) && 0 <= k && k <= k2 && k2 < qN(d,a)
 //@   ensures !inList(d, a, k, qItem(d,a,k2))
 //@   induction k
 //@ lemma inListMono(d []byte, a int, k1 int, k2 int, j int)
-//@   props C04 C02 C03 C08
+//@   props C04 C02 C03 C08 C01 C12
 //@   requires k1 <= k2 && inList(d,a,k1,j)
 //@   ensures inList(d,a,k2,j)
 //@   induction k2
 // a reported child item belongs to the node's item set
 //@ lemma kidsUpToIn(d []byte, a int, b Rect, r Rect, q int, j int)
-//@   props C04 C02 C03 C08
+//@   props C04 C02 C03 C08 C01 C12
 //@   requires q <= 4 && kidsUpTo(d,a,b,r,q,j)
 //@   ensures qInKid(d,a,0,j) || qInKid(d,a,1,j) || qInKid(d,a,2,j) || qInKid(d,a,3,j)
 //@   induction q
 // an item of child q2 has not been reported while only children below q <= q2 were searched
 //@ lemma kidsUpToNotIn(d []byte, a int, b Rect, r Rect, q int, q2 int, j int)
-//@   props C04 C02 C03 C08
+//@   props C04 C02 C03 C08 C01 C12
 //@   requires qDisjoint(d,a) && 0 <= q && q <= q2 && q2 <= 3 && qInKid(d,a,q2,j)
 //@   ensures !kidsUpTo(d,a,b,r,q,j)
 //@   induction q
 // every item of a searched child q1 < q is in the reported set
 //@ lemma kidInUpTo(d []byte, a int, b Rect, r Rect, q int, q1 int, j int)
-//@   props C04 C02 C03 C08
+//@   props C04 C02 C03 C08 C01 C12
 //@   requires 0 <= q1 && q1 < q && q <= 4 && qInKid(d,a,q1,j) && rectsMeet(quadOf(b,q1), r)
 //@   ensures kidsUpTo(d,a,b,r,q,j)
 //@   induction q
 
 // an item of child q (0..3) is an item of the node, and is not in the node's own list
 //@ lemma kidIn(d []byte, a int, q int, j int)
-//@   props C04 C02 C03 C08
+//@   props C04 C02 C03 C08 C01 C12
 //@   requires 0 <= q && q <= 3 && qInKid(d,a,q,j)
 //@   ensures qIn(d,a,j)
 //@ lemma listKidDisjoint(d []byte, a int, q int, j int)
-//@   props C04 C02 C03 C08
+//@   props C04 C02 C03 C08 C01 C12
 //@   requires qDisjoint(d,a) && 0 <= q && q <= 3 && qInKid(d,a,q,j)
 //@   ensures !inList(d,a,qN(d,a),j)
 
 //@ func qCompressSearch
-//@   props C04 C08 C05 C02 C03
+//@   props C04 C08 C05 C02 C03 C01 C12
 //@   arith order
 //@   requires series != nil && QWF(data, addr, bounds, series.points, series.closed)
 //@   iter iter(item) dom qIn(data, addr, item) ; match rectsMeet(segRectOf(series.points, item), rect) ; args bsSeg(series, item), item
@@ -1005,43 +1005,43 @@ package geometry
 //@     (len(d) > 6 && RWF(d, 6, d[5], ps, cl) && (forall i int :: (0 <= i && i < nsegOf(ps,cl)) == rIn(d, 6, d[5], i))) }
 
 //@ lemma rwfNode(d []byte, a int, h int, ps []Point, cl bool)
-//@   props C04 C02 C03 C08
+//@   props C04 C02 C03 C08 C01 C12
 //@   reveal RWF
 //@   requires RWF(d,a,h,ps,cl)
 //@   ensures 0 <= a && 0 <= h && a+33 <= len(d) && rCovers(d,a,h,ps) && (h <= 0 ==> rLeafOK(d,a,ps,cl)) && (h > 0 ==> rKidsOK(d,a,h,ps,cl))
 //@ lemma rInLeafWitness(d []byte, a int, k int, k0 int)
-//@   props C04 C02 C03 C08
+//@   props C04 C02 C03 C08 C01 C12
 //@   requires 0 <= k0 && k0 < k
 //@   ensures rInLeaf(d, a, k, rItem(d,a,k0))
 //@   induction k
 //@ lemma rNotInPrefix(d []byte, a int, k int, k2 int)
-//@   props C04 C02 C03 C08
+//@   props C04 C02 C03 C08 C01 C12
 //@   requires rLeafNoDup(d,a) && 0 <= k && k <= k2 && k2 < rCount(d,a)
 //@   ensures !rInLeaf(d, a, k, rItem(d,a,k2))
 //@   induction k
 //@ lemma rInLeafMono(d []byte, a int, k1 int, k2 int, j int)
-//@   props C04 C02 C03 C08
+//@   props C04 C02 C03 C08 C01 C12
 //@   requires k1 <= k2 && rInLeaf(d,a,k1,j)
 //@   ensures rInLeaf(d,a,k2,j)
 //@   induction k2
 //@ lemma rInKidsMono(d []byte, a int, h int, k1 int, k2 int, j int)
-//@   props C04 C02 C03 C08
+//@   props C04 C02 C03 C08 C01 C12
 //@   requires k1 <= k2 && rInKids(d,a,h,k1,j)
 //@   ensures rInKids(d,a,h,k2,j)
 //@   induction k2
 //@ lemma rKidIn(d []byte, a int, h int, k int, k0 int, j int)
-//@   props C04 C02 C03 C08
+//@   props C04 C02 C03 C08 C01 C12
 //@   requires 0 <= k0 && k0 < k && rIn(d, rKid(d,a,k0), h-1, j)
 //@   ensures rInKids(d,a,h,k,j)
 //@   induction k
 //@ lemma rKidsNotIn(d []byte, a int, h int, ps []Point, cl bool, k int, k2 int, j int)
-//@   props C04 C02 C03 C08
+//@   props C04 C02 C03 C08 C01 C12
 //@   requires rKidsOK(d,a,h,ps,cl) && 0 <= k && k <= k2 && k2 < rCount(d,a) && rIn(d, rKid(d,a,k2), h-1, j)
 //@   ensures !rInKids(d,a,h,k,j)
 //@   induction k
 
 //@ func rnCompressSearch
-//@   props C04 C08 C05 C02 C03
+//@   props C04 C08 C05 C02 C03 C01 C12
 //@   arith order
 //@   requires series != nil && RWF(data, addr, height, series.points, series.closed)
 //@   iter iter(item) dom rIn(data, addr, height, item) ; match rectsMeet(segRectOf(series.points, item), rect) ; args bsSeg(series, item), item
@@ -1064,7 +1064,7 @@ package geometry
 //@   proto call6 use rKidIn(data, addr, height, rCount(data, addr), i, $j)
 
 //@ func rCompressSearch
-//@   props C04 C08 C05 C02 C03
+//@   props C04 C08 C05 C02 C03 C01 C12
 //@   arith order
 //@   requires series != nil && addr == 5 && RWFtop(data, series.points, series.closed)
 //@   iter iter(item) dom 0 <= item && item < bsNseg(series) ; match rectsMeet(segRectOf(series.points, item), rect) ; args bsSeg(series, item), item
@@ -1074,7 +1074,7 @@ package geometry
 // pointer-tree builders is outside the deductive subset; the bounded index suite of govrac stands in for it)
 
 //@ func rRect.expand
-//@   props C04 C05 C01 C02 C03 C08
+//@   props C04 C05 C01 C02 C03 C08 C12
 //@   arith order
 //@   requires r != nil && b != nil
 //@   modifies rRect.min, rRect.max
@@ -1087,7 +1087,7 @@ package geometry
 //@   loop 0 decreases 2 - i
 
 //@ func rRect.contains
-//@   props C04 C05 C01 C02 C03 C08
+//@   props C04 C05 C01 C02 C03 C08 C12
 //@   arith order
 //@   requires r != nil && b != nil
 //@   ensures result == (r.min[0] <= b.min[0] && b.max[0] <= r.max[0] && r.min[1] <= b.min[1] && b.max[1] <= r.max[1])
@@ -1095,7 +1095,7 @@ package geometry
 //@   loop 0 decreases 2 - i
 
 //@ func rRect.intersects
-//@   props C04 C05 C01 C02 C03 C08
+//@   props C04 C05 C01 C02 C03 C08 C12
 //@   arith order
 //@   requires r != nil && b != nil
 //@   ensures result == !(b.min[0] > r.max[0] || b.max[0] < r.min[0] || b.min[1] > r.max[1] || b.max[1] < r.min[1])
@@ -1106,7 +1106,7 @@ package geometry
 // Only the recursion-measure obligations and the depth precondition are generated; the loop over n.items and the
 // safety of SegmentAt(item) need a tree-wide heap invariant that is outside the subset (bounded by govrac index).
 //@ func qNode.insert
-//@   props C05 C04 C01 C02 C03 C08
+//@   props C05 C04 C01 C02 C03 C08 C12
 //@   arith order
 //@   only dec.rec *.Depth
 //@   requires NonNil: n != nil && series != nil
@@ -1117,7 +1117,7 @@ package geometry
 // qNode.compress: the chosen item width is wide enough for the count and for every item (so appendNum never truncates).
 // Only these obligations are generated; establishing QWF for the produced bytes is left to the bounded index suite.
 //@ func qNode.compress
-//@   props C04 C01 C02 C03 C08
+//@   props C04 C01 C02 C03 C08 C12
 //@   arith order
 //@   only pre.call2 pre.call3 inv.loop0 inv.loop1 dec.loop0 dec.loop1
 //@   requires n != nil && len(n.items) <= 4294967295
